@@ -353,7 +353,7 @@ Proof. exact detach_path_uses. Qed.
 Theorem TB_patch_calls_add : forall object value pstr cs,
   PatchDefs.finish_add object value pstr cs =
   match pstr with
-  | [] => Ok (0, PatchDefs.set_key value None)
+  | [] => Ok (0, PatchDefs.unnamed value)
   | _ =>
       match PatchDefs.last_slash pstr 0 None with
       | None => Ok (9, object)
@@ -822,14 +822,14 @@ Print Assumptions TB_patch_root_remove.
 (** where the value-level model computes these values: the root case of copy / move ([finish_add] with the
     empty path), of add / replace, and of remove in PatchDefs.apply_patch *)
 Theorem TB_patch_model_root_cases :
-  (forall object value cs, PatchDefs.finish_add object value [] cs = Ok (0, PatchDefs.set_key value None)) /\
+  (forall object value cs, PatchDefs.finish_add object value [] cs = Ok (0, PatchDefs.unnamed value)) /\
   (forall object patch (cs : bool) i pathn op j v d,
      CompareDefs.get_object_item patch (Some PatchDefs.s_path) cs = Some (i, pathn) ->
      Tree.is_string pathn = true -> Tree.n_vstr pathn = Some [] ->
      PatchDefs.decode_patch_operation patch cs = Ok op -> op = PatchDefs.ADD \/ op = PatchDefs.REPLACE ->
      CompareDefs.get_object_item patch (Some PatchDefs.s_value) cs = Some (j, v) ->
      PatchDefs.cJSON_Duplicate v = Some d ->
-     PatchDefs.apply_patch object patch cs = Ok (0, PatchDefs.set_key d None, patch)) /\
+     PatchDefs.apply_patch object patch cs = Ok (0, PatchDefs.unnamed d, patch)) /\
   (forall object patch (cs : bool) i pathn,
      CompareDefs.get_object_item patch (Some PatchDefs.s_path) cs = Some (i, pathn) ->
      Tree.is_string pathn = true -> Tree.n_vstr pathn = Some [] ->
